@@ -364,8 +364,15 @@ def map_case(rec, rng, cid, scratch):
     if truth is not None:
         # fitted moduli of a synthetic map carry the pixel they were
         # written for (ground truth: E = 1000 (1 + ix + 10 iy))
+        # (started near the written modulus: the default start of 3 kPa
+        #  once ended in a local minimum 21 % off - 1 pixel in ~4000 - which
+        #  says nothing about the placement of values)
+        e_of = {en: E for en, ix, iy, E in truth}
         for idnt in curves:
+            p0 = gen.nanite_params("hertz_para")
+            p0["E"].value = .7 * e_of.get(idnt.enum, p0["E"].value)
             idnt.fit_model(model_key="hertz_para", weight_cp=0,
+                           params_initial=p0,
                            range_type="absolute", range_x=[0, 0])
         m = qm.get_qmap("fit: Young's modulus", qmap_only=True)
         exp = np.full((nys, nxs), np.nan)
